@@ -58,6 +58,8 @@ class Frame:
         self.strong = {}
         self.last_end = None
         self.yields = None
+        self.ycounts = None
+        self.loopn = []
 
 
 # ----------------------------------------------------------------------------- joins
